@@ -39,6 +39,12 @@ def splitList (s : String) (sep : String) : List String :=
 def behavioursOf (s : String) : Option (List Behaviour) :=
   (splitList s ",").mapM behaviourOf
 
+/-- `badbody`: a well-framed reply, error code 0, whose body is not decodable JSON. `call_message` does
+not decode the body: for it such a reply is a success like any other. -/
+def behavioursFor (variant : String) (s : String) : Option (List Behaviour) :=
+  (splitList s ",").mapM fun w =>
+    if w = "badbody" then some (if variant = "msg" then Behaviour.success else Behaviour.badBody) else behaviourOf w
+
 def kindOf : String → Option IoKind
   | "NotFound" => some .notFound | "PermissionDenied" => some .permissionDenied
   | "ConnectionRefused" => some .connectionRefused | "ConnectionReset" => some .connectionReset
@@ -98,7 +104,7 @@ def filterOf (fleet : String) : FilterForm :=
 def nodeOf (s : String) : Option Node :=
   match s.splitOn "=" with
   | [name, tags, bs] => do
-    let bs ← behavioursOf bs
+    let bs ← behavioursFor "json" bs
     pure ⟨name, splitList tags "+", bs⟩
   | _ => none
 
@@ -171,7 +177,7 @@ def step (st : Unit) (ws : List String) : Unit × String :=
       | [] => some []
       | [w] => if w.startsWith "dead=" then (splitList (w.drop 5).toString ",").mapM kindOf else none
       | _ => none
-    match policyOf fleet, loopOf fleet variant, behavioursOf seq, observed with
+    match policyOf fleet, loopOf fleet variant, behavioursFor variant seq, observed with
     | some P, some lf, some bs, some ks =>
       if ks.any (fun k => !(deadKindsOf fleet).contains k) then
         (st, idx ++ " inadmissible-dead-client-kind")
@@ -185,7 +191,7 @@ def step (st : Unit) (ws : List String) : Unit × String :=
       | [] => some []
       | [w] => if w.startsWith "dead=" then (splitList (w.drop 5).toString ",").mapM kindOf else none
       | _ => none
-    match policyOf fleet, loopOf fleet "json", behavioursOf seq, (splitList ops ",").mapM lifeOpOf, observed with
+    match policyOf fleet, loopOf fleet "json", behavioursFor "json" seq, (splitList ops ",").mapM lifeOpOf, observed with
     | some P, some lf, some bs, some os, some ks =>
       if ks.any (fun k => !(deadKindsOf fleet).contains k) then
         (st, idx ++ " inadmissible-dead-client-kind")
